@@ -450,6 +450,285 @@ def stream_fixups(run, rng, thorough):
             run.oblige('corr:%s' % name, False, str(exc))
 
 
+# ================================================================== 3b. white space between table parts
+# CSS 2.1 17.2.1 rules 1.3 / 1.4: an anonymous inline box holding only white space (space, tab, LF, CR, FF) between
+# two internal table boxes / captions, or first / last in a tabular container next to one, generates no box --
+# whatever the value of white-space (under pre, pre-wrap, pre-line, break-spaces the text still has its tabs and
+# line feeds when the table fix-ups see it).
+
+CSS_WS = ' \t\n\r\f'
+NOT_WS = ['\xa0', '　']       # no-break space, ideographic space: not white space in CSS 2.1
+SIG_UNI_SPACE = 'table-ws-unicode-space-dropped'
+INTERNAL = ('TableRowGroupBox', 'TableRowBox', 'TableColumnGroupBox', 'TableColumnBox', 'TableCaptionBox', 'TableCellBox')
+TABULAR = ('TableBox', 'InlineTableBox', 'TableRowGroupBox', 'TableRowBox')
+
+
+def ws_strings():
+    """every string of length 1 and 2 over {space, tab, LF, CR, FF}"""
+    return [a for a in CSS_WS] + [a + b for a in CSS_WS for b in CSS_WS]
+
+
+def is_css_ws(t):
+    return all(c in CSS_WS for c in t)
+
+
+def uniq_ws(i):
+    """a white-space-only string that identifies the text box number i"""
+    s = ''
+    i += 5
+    while i:
+        s = CSS_WS[i % 5] + s
+        i //= 5
+    return s
+
+
+def gen_atb_ws_tree(rng, counter):
+    def text():
+        counter[0] += 1
+        if rng.random() < .65:
+            return ['TextBox', {'text': uniq_ws(counter[0]), 'wsonly': True}, []]
+        return ['TextBox', {'text': 'w%d' % counter[0]}, []]
+
+    def node(depth, parent):
+        kind = rng.choice(ATB_KINDS[:-3])
+        if parent in TABULAR and rng.random() < .7:
+            kind = rng.choice(['TableRowBox', 'TableCellBox', 'TableCellBox', 'TableRowGroupBox', 'TableCaptionBox', 'TableColumnBox'])
+        a = {}
+        if kind == 'TableRowGroupBox':
+            a['grp'] = rng.choice([0, 0, 1, 2])
+        if kind == 'TableCaptionBox':
+            a['capbot'] = rng.random() < .4
+        return [kind, a, kids(depth + 1, kind)]
+
+    def kids(depth, parent):
+        if depth >= 3:
+            return [text()] if rng.random() < .5 else []
+        out = []
+        for _ in range(rng.choice([0, 1, 2, 3, 4, 5])):
+            if rng.random() < .45 and not (out and out[-1][0] == 'TextBox'):
+                out.append(text())
+            else:
+                out.append(node(depth, parent))
+        return out
+    return ['BlockBox', {}, kids(0, 'BlockBox')]
+
+
+def atb_ws_expect(tree):
+    """(texts that must be gone, texts that must be there) by CSS 2.1 17.2.1 rules 1.1-1.4 read on the input"""
+    drop, keep = [], []
+
+    def walk(t, in_col):
+        kind, a, kids = t
+        in_col = in_col or kind in ('TableColumnBox', 'TableColumnGroupBox')
+        for i, k in enumerate(kids):
+            if k[0] == 'TextBox':
+                txt = k[1]['text']
+                if in_col:
+                    drop.append(txt)                     # rules 1.1 / 1.2
+                    continue
+                prev = kids[i - 1] if i else None
+                nxt = kids[i + 1] if i + 1 < len(kids) else None
+                pi = prev is not None and prev[0] in INTERNAL
+                ni = nxt is not None and nxt[0] in INTERNAL
+                if is_css_ws(txt):
+                    if (pi and ni) or (kind in TABULAR and len(kids) >= 2 and ((prev is None and ni) or (nxt is None and pi))):
+                        drop.append(txt)                 # rules 1.4 / 1.3
+                else:
+                    keep.append(txt)
+            else:
+                walk(k, in_col)
+    walk(tree, False)
+    return drop, keep
+
+
+# ---- documents
+
+def gen_table_doc(rng, gap):
+    """a table (or stray table parts) made of div elements; gap(position kind) gives the text put between / around
+    the table parts.  Returns a function html(with_gaps: bool)."""
+    n = [0]
+
+    def cell():
+        n[0] += 1
+        at = ''
+        if rng.random() < .25:
+            at += ' colspan=%d' % rng.choice([2, 3])
+        if rng.random() < .25:
+            at += ' rowspan=%d' % rng.choice([0, 2, 3])
+        inner = 'c%d' % n[0] if rng.random() < .8 else 'c%d  d%d' % (n[0], n[0])
+        return ('el', 'table-cell', at, [('txt', inner)])
+
+    def row():
+        return ('el', 'table-row', '', seq([cell() for _ in range(rng.choice([1, 2, 3]))], True))
+
+    def group():
+        return ('el', rng.choice(['table-row-group', 'table-row-group', 'table-header-group', 'table-footer-group']), '',
+                seq([row() for _ in range(rng.choice([1, 2]))], True))
+
+    def seq(items, tabular):
+        out = []
+        if tabular:
+            out.append(('gap',))
+        for i, it in enumerate(items):
+            if i:
+                out.append(('gap',))
+            out.append(it)
+        if tabular:
+            out.append(('gap',))
+        return out
+    shape = rng.choice(['table', 'table', 'inline-table', 'stray-rows', 'stray-cells', 'stray-groups'])
+    if shape in ('table', 'inline-table'):
+        parts = []
+        if rng.random() < .3:
+            parts.append(('el', 'table-caption', '', [('txt', 'cap')]))
+        if rng.random() < .3:
+            parts.append(('el', 'table-column-group', '', seq([('el', 'table-column', '', [])], False)))
+        parts += [group() if rng.random() < .6 else row() for _ in range(rng.choice([1, 2, 3]))]
+        root = ('el', shape, '', seq(parts, True))
+    elif shape == 'stray-rows':
+        root = ('el', rng.choice(['block', 'inline']), '', seq([row() for _ in range(rng.choice([2, 3]))], False))
+    elif shape == 'stray-groups':
+        root = ('el', 'block', '', seq([group() for _ in range(2)], False))
+    else:
+        root = ('el', rng.choice(['block', 'inline', 'flex']), '', seq([cell() for _ in range(rng.choice([2, 3]))], False))
+
+    gaps = {}
+
+    def render(t, with_gaps, path):
+        if t[0] == 'txt':
+            return t[1]
+        if t[0] == 'gap':
+            if not with_gaps:
+                return ''
+            if path not in gaps:
+                gaps[path] = gap()
+            return gaps[path]
+        return '<div style="display:%s"%s>%s</div>' % (t[1], t[2], ''.join(render(k, with_gaps, path + (i,)) for i, k in enumerate(t[3])))
+    return lambda with_gaps: render(root, with_gaps, ()), shape
+
+
+def html_text(t):
+    return t.replace('\r', '&#13;')
+
+
+def table_doc_html(ws, body):
+    return ('<style>body{margin:0;font-family:weasyprint;font-size:10px;line-height:10px;white-space:%s}</style>%s' % (ws, body))
+
+
+def stream_table_ws(run, rng, thorough):
+    # ---- A. anonymous_table_boxes called on synthetic boxes carrying every kind of white-space text
+    cases = [dict(tree=c) for c in corpus('table-ws-direct')]
+    # every string of length <= 2 between two cells of a row, between two rows of a table, around the rows of a group
+    for t in ws_strings():
+        cases.append(dict(tree=['BlockBox', {}, [['TableRowBox', {}, [['TableCellBox', {}, []], ['TextBox', {'text': t, 'wsonly': True}, []],
+                                                                      ['TableCellBox', {}, []]]]]]))
+        cases.append(dict(tree=['BlockBox', {}, [['TableBox', {}, [['TextBox', {'text': t + ' ', 'wsonly': True}, []], ['TableRowBox', {}, []],
+                                                                   ['TextBox', {'text': t, 'wsonly': True}, []], ['TableRowGroupBox', {}, []],
+                                                                   ['TextBox', {'text': ' ' + t, 'wsonly': True}, []]]]]]))
+    while len(cases) < (2500 if thorough else 700):
+        cases.append(dict(tree=gen_atb_ws_tree(rng, [0])))
+    outs = common.run_impl('impl_c08', 'fix_atb_ws', cases, chunksize=16)
+    coq, kept, reported = [], [], False
+    for c, (st, o) in zip(cases, outs):
+        if st != 'ok':
+            run.fail('anonymous_table_boxes raised %s' % (o and o.get('site'),), {'stream': 'table-ws-direct', 'case': c, 'outcome': o},
+                     signature='crash:%s' % (o and o.get('site'),))
+            continue
+        drop, keep = atb_ws_expect(c['tree'])
+        left = Counter(o['texts'])
+        bad_drop = [t for t in drop if left[t]]
+        bad_keep = [t for t in keep if left[t] != 1]
+        if (bad_drop or bad_keep) and not reported:
+            reported = True
+            run.fail('anonymous table fix-ups: ' + ('white-space-only text %r between / around table parts generates a box'
+                                                    % bad_drop[:2] if bad_drop else 'text %r is lost or duplicated' % bad_keep[:2]),
+                     {'stream': 'table-ws-direct', 'case': c, 'texts_left': o['texts'], 'must_be_gone': bad_drop, 'must_be_there_once': bad_keep},
+                     signature='table-ws-direct:' + ('kept' if bad_drop else 'lost'))
+        coq.append('(%s, %s)' % (box_term(c['tree']), tree_term(o['tree'])))
+        kept.append(c)
+    try:
+        masks = common.eval_cases('c08atbws', PRE_FIX, 'box * tree', coq, 'atb_judge', per_file=max(60, len(coq) // 15 + 1))
+        mism = [c for c, m in zip(kept, masks) if m & 1]
+        run.oblige('corr:table-ws-direct(anonymous_table_boxes vs the model, white space = space/tab/LF/CR/FF)', not mism, 'first: %s' % mism[:1])
+        for c, m in zip(kept, masks):
+            if m & 2:
+                run.fail('the output of anonymous_table_boxes violates the table clause of spec_wf_tree', {'stream': 'table-ws-direct', 'case': c},
+                         signature='fixup-spec:table-ws-direct')
+                break
+        run.count('table-ws-direct', len(kept), [json.dumps(c) for c in kept], samples=[kept[3]])
+        run.stream_info('table-ws-direct', rule='real boxes; text boxes hold every string of length <= 2 over {space,tab,LF,CR,FF} (and unique '
+                        'longer ones) or a word; judged: texts that rules 1.1-1.4 remove are gone, every other word is there once, shape = model')
+    except RuntimeError as exc:
+        run.oblige('corr:table-ws-direct', False, str(exc))
+    # ---- B. full pipeline: a document with white space between its table parts builds the same box tree as without
+    docs = []
+    strings = ws_strings()
+    for ws in WS:
+        for t in strings:                                   # systematic: all gaps hold the same string
+            mk, shape = gen_table_doc(rng, lambda t=t: html_text(t))
+            docs.append((ws, shape, mk, t))
+    while len(docs) < (2400 if thorough else 520):
+        ws = rng.choice(WS)
+        mk, shape = gen_table_doc(rng, lambda: html_text(''.join(rng.choice(CSS_WS) for _ in range(rng.choice([1, 1, 2, 3, 5])))))
+        docs.append((ws, shape, mk, None))
+    uni = []
+    for ws in WS:
+        for ch in NOT_WS:
+            mk, shape = gen_table_doc(random.Random(7), lambda ch=ch: rng.choice(['', ' ']) + ch)
+            uni.append((ws, shape, mk, ch))
+    cases, ref = [], []
+    for i, (ws, shape, mk, t) in enumerate(docs + uni):
+        render = (i % 6 == 0)
+        cases.append(dict(html=table_doc_html(ws, mk(True)), render=render))
+        cases.append(dict(html=table_doc_html(ws, mk(False)), render=render))
+    outs = run_impl_safe('table_ws_doc', cases, limit=8, chunksize=4)
+    seen, judged, uni_dropped, uni_kept = set(), 0, 0, 0
+    for i, (ws, shape, mk, t) in enumerate(docs + uni):
+        (s1, o1), (s2, o2) = outs[2 * i], outs[2 * i + 1]
+        html = cases[2 * i]['html']
+        if s1 == 'timeout' or s2 == 'timeout':
+            continue
+        if s1 != 'ok' or s2 != 'ok':
+            o = o1 if s1 != 'ok' else o2
+            run.fail('building / laying out a table document raised %s' % (o and o.get('site'),), {'stream': 'table-ws-doc', 'html': html, 'exc': o},
+                     signature='crash:%s' % (o and o.get('site'),))
+            continue
+        same = (o1['tree'] == o2['tree'] and o1['tables'] == o2['tables'] and o1['texts'] == o2['texts'])
+        if i >= len(docs):
+            # no-break / ideographic space is not white space: it must generate a box (the text must be there)
+            if any(t in x for x in o1['texts']):
+                uni_kept += 1
+            else:
+                uni_dropped += 1
+                if any(k.get('signature') == SIG_UNI_SPACE for k in run.known):
+                    run.fail('U+%04X between table parts is dropped as if it were white space' % ord(t),
+                             {'stream': 'table-ws-doc', 'html': html}, signature=SIG_UNI_SPACE)
+            continue
+        judged += 1
+        seen.add((ws, shape, t))
+        if not same and 'table-ws-doc' not in seen:
+            seen.add('table-ws-doc')
+            what = ('rows x cells / grid_x / spans %s instead of %s' % ([[[c[2:] for c in r] for r in g] for tb in o1['tables'] for g in tb['groups']],
+                                                                        [[[c[2:] for c in r] for r in g] for tb in o2['tables'] for g in tb['groups']])
+                    if o1['tables'] != o2['tables'] else 'text boxes %r instead of %r' % (o1['texts'], o2['texts'])
+                    if o1['texts'] != o2['texts'] else 'another box tree')
+            run.fail('white-space-only text between / around table parts (white-space: %s) generates boxes: %s' % (ws, what),
+                     {'stream': 'table-ws-doc', 'html': html, 'html_without': cases[2 * i + 1]['html'], 'white_space': ws,
+                      'tables': o1['tables'], 'tables_without': o2['tables'], 'texts': o1['texts'], 'texts_without': o2['texts']},
+                     signature='table-ws-doc:differs')
+        if 'post' in o1 and 'post' in o2 and o1['post'] != o2['post'] and 'table-ws-post' not in seen:
+            seen.add('table-ws-post')
+            run.fail('after layout, white-space-only text between table parts (white-space: %s) changes the table: %s instead of %s'
+                     % (ws, o1['post'], o2['post']), {'stream': 'table-ws-doc', 'html': html, 'html_without': cases[2 * i + 1]['html'],
+                                                     'white_space': ws, 'stage': 'layout'}, signature='table-ws-doc:differs-after-layout')
+    run.count('table-ws-doc', judged, [k for k in seen if isinstance(k, tuple)], samples=[cases[0]['html'][:500]])
+    run.stream_info('table-ws-doc', rule='tables, inline tables, stray rows / row groups / cells (in block, inline, flex parents) made of div '
+                    'elements, colspan / rowspan; every string of length <= 2 over {space,tab,LF,CR,FF} (then random ones) put in every gap '
+                    'between and around the table parts, under each of the 6 white-space values; judged: same box tree, same rows x cells / '
+                    'grid_x / spans, same text boxes as the document without that text (every 6th also after layout)',
+                    unicode_space_docs=len(uni), unicode_space_dropped=uni_dropped, unicode_space_kept=uni_kept)
+
+
 # ================================================================== 4. display / float / position -> box class
 
 DISPLAYS = {
@@ -1196,6 +1475,7 @@ def check(run):
     stream_ws(run, rng, thorough)
     stream_tables(run, rng, thorough)
     stream_fixups(run, rng, thorough)
+    stream_table_ws(run, rng, thorough)
     stream_display(run, rng, thorough)
     stream_documents(run, rng, thorough)
 
@@ -1261,6 +1541,25 @@ def replay(data):
                                                           disp_term(o['display']), FLOATS[o['float']], CLS_CODE[o['cls']])], 'display_judge')
         print('replay:', o, m)
         return 1 if m[0] else 0
+    if stream == 'table-ws-doc':
+        (s1, o1), (s2, o2) = common.run_impl('impl_c08', 'table_ws_doc', [dict(html=d['html'], render=True),
+                                                                           dict(html=d['html_without'], render=True)])
+        if s1 != 'ok' or s2 != 'ok':
+            print('replay:', s1, s2)
+            return 1
+        diff = [k for k in ('tree', 'tables', 'texts', 'post') if o1[k] != o2[k]]
+        print('replay: differs in', diff, o1['texts'], o2['texts'])
+        return 1 if diff else 0
+    if stream == 'table-ws-direct':
+        (st, o), = common.run_impl('impl_c08', 'fix_atb_ws', [d['case']])
+        if st != 'ok':
+            print('replay:', st, o)
+            return 1
+        drop, keep = atb_ws_expect(d['case']['tree'])
+        left = Counter(o['texts'])
+        bad = [t for t in drop if left[t]] + [t for t in keep if left[t] != 1]
+        print('replay: texts left', o['texts'], 'wrong:', bad)
+        return 1 if bad else 0
     if stream in ('fixup-tables', 'fixup-inline-in-block', 'fixup-block-in-inline'):
         fn, judge = {'fixup-tables': ('fix_atb', 'atb_judge'), 'fixup-inline-in-block': ('fix_iib', 'iib_judge'),
                      'fixup-block-in-inline': ('fix_bii', 'bii_judge')}[stream]
